@@ -455,20 +455,28 @@ class Subject:
                 raise
             return ['EXC', type(e).__name__]
         self.refactorings[op['sid'] + ':' + op['rid']] = r
-        return self.describe_refactoring(r)
+        return self.describe_refactoring(r, op.get('order', 'code_first'))
 
-    def describe_refactoring(self, r):
+    def describe_refactoring(self, r, order='code_first'):
+        """order: which accessor an editor calls first (preview the diff, then
+        look at / apply the code - or the other way round)"""
+        diff_first = None
+        if order != 'code_first':
+            diff_first = self.canon.text(r.get_diff())
         files = {}
         for p, cf in sorted(r.get_changed_files().items(), key=lambda kv: str(kv[0])):
             files[self.canon.path(p) or '<pathless>'] = cf.get_new_code()
         renames = [[self.canon.path(a), self.canon.path(b)] for a, b in r.get_renames()]
-        return {'files': files, 'renames': renames, 'diff': self.canon.text(r.get_diff())}
+        diff = self.canon.text(r.get_diff())
+        out = {'files': files, 'renames': renames, 'diff': diff if diff_first is None else diff_first,
+               'diff_again': diff}
+        return out
 
     def op_refactor_inspect(self, op):
         r = self.refactorings.get(op['sid'] + ':' + op['rid'])
         if r is None:
             return ['NOREF']
-        return self.describe_refactoring(r)
+        return self.describe_refactoring(r, op.get('order', 'code_first'))
 
     def op_refactor_apply(self, op):
         r = self.refactorings.get(op['sid'] + ':' + op['rid'])
